@@ -378,46 +378,68 @@ def _roland_exact(c):
 # its tail, heads that are not the lowest sector, cycles and garbage elsewhere - after the decode every member carries exactly its own
 # word: the end marker as an end link, a link word w as (next = w, not end).  With get_path's contract the sector list of the file is
 # the sequence obtained by following the table from its first sector.
-@contract("smpl_extract.akai.sat:SegmentAllocationTableAdapter._decode#exact", source_key="smpl_extract.akai.sat:SegmentAllocationTableAdapter._decode",
-          props=["C07", "C01"], proof_only=True)
-def _akai_exact(c):
-    c.self_obj(("self", "smpl_extract.akai.sat:SegmentAllocationTableAdapter", {"partition_stream": ("const", None)}))
-    c.param("obj", ("list", "int"))
-    c.param("context", ("const", None))
-    c.param("path", ("const", None))
-    c.value_class("SectorLink", {"next": "int", "end": "bool"})
-    c.requires("1 <= len(obj) and len(obj) < 0x4000", "table-shorter-than-the-flag-values")          # 11386 entries in the format
-    c.requires("forall(0, len(obj), lambda k: 0 <= obj[k] and obj[k] < 65536)", "sixteen-bit-words")
-    c.define("wf", ["j"], "uf_bool('well_formed_member', j)")
-    c.define("isdir", ["w"], "w == 0x4000 or w == 0x8000")
-    c.requires("forall(0, 65536, lambda j: implies(wf(j), j < len(obj) and obj[j] != 0 and not isdir(obj[j]) and obj[j] != j and "
-               "implies(obj[j] != 0xC000, wf(obj[j]))))", "wf-is-closed-under-following-the-table")
-    c.define("ok", ["j", "w", "lnk"], "not wf(j) or (w == 0xC000 and lnk.end) or (w != 0xC000 and lnk.next == w and not lnk.end)")
-    c.ensures("forall(0, len(obj), lambda j: ok(j, obj[j], result.sector_links[j]))", "every-member-of-a-well-formed-chain-carries-exactly-its-table-word")
-    c.modifies()
-    lo = c.loop(0)
-    lo.invariant("len(dirty_flags) == size and len(sector_links) == size and size == len(block) and size < 0x4000",
-                 "forall(0, size, lambda k: 0 <= block[k] and block[k] < 65536)",
-                 "forall(0, _i0, lambda j: dirty_flags[j])",
-                 "forall(0, size, lambda j: implies(dirty_flags[j], ok(j, block[j], sector_links[j])))")
-    lo.modifies("sector_links").modifies("dirty_flags")
-    li = c.loop(1)
-    nxt = lambda e: f"ite(isdir(block[{e}]), {e} + 1, block[{e}])"
-    li.invariant(
-        "len(dirty_flags) == size and len(sector_links) == size and size == len(block) and size < 0x4000",
-        "forall(0, size, lambda k: 0 <= block[k] and block[k] < 65536)",
-        "subpath_index >= 0 and continue_flag and 0 <= i and i < size",
-        "forall(0, len(links), lambda k: 0 <= links[k] and links[k] < size and dirty_flags[links[k]])",
-        f"forall(0, len(links) - 1, lambda k: links[k + 1] == {nxt('links[k]')})",
-        f"ite(len(links) > 0, subpath_index == {nxt('links[len(links) - 1]')}, subpath_index == i)",
-        "implies(len(links) > 0, previous_sector_was_directory == isdir(block[links[len(links) - 1]]))",
-        "forall(0, len(links), lambda k: implies(wf(links[k]), wf(subpath_index)))",
-        "implies(len(links) > 0 and previous_sector_was_directory, forall(0, len(links), lambda k: not wf(links[k])))",
-        "implies(len(links) == 0 or not previous_sector_was_directory, subpath_index >= size or not dirty_flags[subpath_index] or "
-        "(len(links) > 0 and subpath_index == links[len(links) - 1]))",
-        "forall(0, i, lambda j: dirty_flags[j])",
-        "implies(len(links) > 0, links[0] == i)",
-        "forall(0, size, lambda j: implies(dirty_flags[j], ok(j, block[j], sector_links[j]) or exists(0, len(links), lambda k: links[k] == j)))",
-    )
-    li.measure("grows:dirty_flags", "size - subpath_index")
-    li.modifies("sector_links").modifies("dirty_flags").modifies("links", ("list", "int"))
+# A second proof over the same code (`#exact-directory-runs`, its own invariants) covers the directory area: a sector carrying a reserved
+# flag is linked to the next sector while that one carries a flag too, and ends the run otherwise.
+def _mk_akai_exact(dirs):
+    key = "smpl_extract.akai.sat:SegmentAllocationTableAdapter._decode#exact" + ("-directory-runs" if dirs else "")
+
+    @contract(key, source_key="smpl_extract.akai.sat:SegmentAllocationTableAdapter._decode", props=["C07", "C01"], proof_only=True)
+    def _akai_exact(c):
+        c.self_obj(("self", "smpl_extract.akai.sat:SegmentAllocationTableAdapter", {"partition_stream": ("const", None)}))
+        c.param("obj", ("list", "int"))
+        c.param("context", ("const", None))
+        c.param("path", ("const", None))
+        c.value_class("SectorLink", {"next": "int", "end": "bool"})
+        c.requires("1 <= len(obj) and len(obj) < 0x4000", "table-shorter-than-the-flag-values")          # 11386 entries in the format
+        c.requires("forall(0, len(obj), lambda k: 0 <= obj[k] and obj[k] < 65536)", "sixteen-bit-words")
+        c.define("isdir", ["w"], "w == 0x4000 or w == 0x8000")
+        if not dirs:
+            c.define("wf", ["j"], "uf_bool('well_formed_member', j)")
+            c.requires("forall(0, 65536, lambda j: implies(wf(j), j < len(obj) and obj[j] != 0 and not isdir(obj[j]) and obj[j] != j and "
+                       "implies(obj[j] != 0xC000, wf(obj[j]))))", "wf-is-closed-under-following-the-table")
+            c.define("ok", ["j", "blk", "n", "lnk"], "not wf(j) or (blk[j] == 0xC000 and lnk.end) or (blk[j] != 0xC000 and lnk.next == blk[j] and not lnk.end)")
+            c.ensures("forall(0, len(obj), lambda j: ok(j, obj, len(obj), result.sector_links[j]))", "every-member-of-a-well-formed-chain-carries-exactly-its-table-word")
+        else:
+            c.define("ok", ["j", "blk", "n", "lnk"], "not isdir(blk[j]) or ite(j + 1 < n and isdir(blk[j + 1]), lnk.next == j + 1 and not lnk.end, lnk.end)")
+            c.ensures("forall(0, len(obj), lambda j: ok(j, obj, len(obj), result.sector_links[j]))",
+                      "a-run-of-reserved-flag-sectors-is-linked-sector-by-sector-and-ends-with-its-last")
+        c.modifies()
+        lo = c.loop(0)
+        lo.invariant("len(dirty_flags) == size and len(sector_links) == size and size == len(block) and size < 0x4000",
+                     "forall(0, size, lambda k: 0 <= block[k] and block[k] < 65536)",
+                     "forall(0, _i0, lambda j: dirty_flags[j])",
+                     "forall(0, size, lambda j: implies(dirty_flags[j], ok(j, block, size, sector_links[j])))")
+        lo.modifies("sector_links").modifies("dirty_flags")
+        li = c.loop(1)
+        nxt = lambda e: f"ite(isdir(block[{e}]), {e} + 1, block[{e}])"
+        inv = [
+            "len(dirty_flags) == size and len(sector_links) == size and size == len(block) and size < 0x4000",
+            "forall(0, size, lambda k: 0 <= block[k] and block[k] < 65536)",
+            "subpath_index >= 0 and continue_flag and 0 <= i and i < size",
+            "forall(0, len(links), lambda k: 0 <= links[k] and links[k] < size and dirty_flags[links[k]])",
+            f"forall(0, len(links) - 1, lambda k: links[k + 1] == {nxt('links[k]')})",
+            f"ite(len(links) > 0, subpath_index == {nxt('links[len(links) - 1]')}, subpath_index == i)",
+            "implies(len(links) > 0, previous_sector_was_directory == isdir(block[links[len(links) - 1]]))",
+            "implies(len(links) == 0 or not previous_sector_was_directory, subpath_index >= size or not dirty_flags[subpath_index] or "
+            "(len(links) > 0 and subpath_index == links[len(links) - 1]))",
+            "forall(0, i, lambda j: dirty_flags[j])",
+            "implies(len(links) > 0, links[0] == i)",
+            "forall(0, size, lambda j: implies(dirty_flags[j], ok(j, block, size, sector_links[j]) or exists(0, len(links), lambda k: links[k] == j)))",
+        ]
+        if not dirs:
+            inv += ["forall(0, len(links), lambda k: implies(wf(links[k]), wf(subpath_index)))",
+                    "implies(len(links) > 0 and previous_sector_was_directory, forall(0, len(links), lambda k: not wf(links[k])))"]
+        else:
+            inv += [  # the walk never visits a sector twice: plain members were unvisited when reached, a directory run only moves upwards
+                "forall(0, len(links), lambda a: forall(0, len(links), lambda b: implies(a < b, links[a] != links[b])))",
+                "forall(0, len(links), lambda k: implies(isdir(block[links[k]]), links[k] < subpath_index))",
+                "implies(len(links) > 0 and not previous_sector_was_directory, forall(0, len(links), lambda k: not isdir(block[links[k]])))",
+                "forall(0, len(links) - 1, lambda k: implies(isdir(block[links[k]]), isdir(block[links[k + 1]])))"]
+        li.invariant(*inv)
+        li.measure("grows:dirty_flags", "size - subpath_index")
+        li.modifies("sector_links").modifies("dirty_flags").modifies("links", ("list", "int"))
+    return _akai_exact
+
+
+_mk_akai_exact(False)
+_mk_akai_exact(True)
